@@ -83,3 +83,66 @@ void hw_length(void)
   value_cst r = w_length(0, &a);
   __CPROVER_assert(r.m_cst.m_value.m_u == sum && r.m_cst.m_value.m_sign == signedness__unsign, "length: number of addresses in the set");
 }
+
+/* ---- words with a constant operand: aset, add, sub, ?contains (addressify clamps negatives to 0) ---- */
+_Bool nondet_bool(void);
+static value_cst mkcst(uint64_t u, _Bool s)
+{
+  value_cst c;
+  c.m_cst.m_value.m_u = u;
+  c.m_cst.m_value.m_sign = s ? signedness__sign : signedness__unsign;
+  c.m_cst.m_dom = (const zw_cdom *)0;
+  return c;
+}
+#define ADDR(u, s) (((s) && (int64_t)(u) < 0) ? (uint64_t)0 : (uint64_t)(u))   /* what an operand denotes as an address */
+
+void hw_aset_cst_cst(void)
+{
+  uint64_t au = nondet_u64(), bu = nondet_u64(), x = nondet_u64(); _Bool as = nondet_bool(), bs = nondet_bool();
+  value_cst a = mkcst(au, as), b = mkcst(bu, bs);
+  uint64_t lo = ADDR(au, as) < ADDR(bu, bs) ? ADDR(au, as) : ADDR(bu, bs);
+  uint64_t hi = ADDR(au, as) < ADDR(bu, bs) ? ADDR(bu, bs) : ADDR(au, as);
+  verif_raised = 0;
+  value_aset r = w_aset_cst_cst(0, &a, &b);
+  __CPROVER_assert(verif_raised == 0, "aset: no error for two integer operands");
+  __CPROVER_assert(cov_wf(&r.cov), "aset: result satisfies the representation invariant");
+  __CPROVER_assert(cov_member(&r.cov, x) == (x >= lo && x < hi), "aset: the half-open interval between the operands, in either order");
+}
+
+void hw_add_cst(void)
+{
+  MKSET(a, arr, C16_NMAX)
+  uint64_t bu = nondet_u64(), x = nondet_u64(); _Bool bs = nondet_bool();
+  value_cst b = mkcst(bu, bs);
+  uint64_t v = ADDR(bu, bs);
+  __CPROVER_assume(v != UINT64_MAX);                 /* addresses below 2^64-1 */
+  _Bool ina = cov_member(&a.cov, x);
+  value_aset r = w_add_aset_cst(0, &a, &b);
+  __CPROVER_assert(cov_wf(&r.cov), "add (address): representation invariant");
+  __CPROVER_assert(cov_member(&r.cov, x) == (ina || x == v), "add (address): union with the single address");
+}
+
+void hw_sub_cst(void)
+{
+  MKSET(a, arr, C16_NMAX)
+  uint64_t bu = nondet_u64(), x = nondet_u64(); _Bool bs = nondet_bool();
+  value_cst b = mkcst(bu, bs);
+  uint64_t v = ADDR(bu, bs);
+  __CPROVER_assume(v != UINT64_MAX);
+  _Bool ina = cov_member(&a.cov, x);
+  value_aset r = w_sub_aset_cst(0, &a, &b);
+  __CPROVER_assert(cov_wf(&r.cov), "sub (address): representation invariant");
+  __CPROVER_assert(cov_member(&r.cov, x) == (ina && x != v), "sub (address): difference with the single address");
+}
+
+void hw_contains_cst(void)
+{
+  MKSET(a, arr, C16_NMAX)
+  uint64_t bu = nondet_u64(); _Bool bs = nondet_bool();
+  value_cst b = mkcst(bu, bs);
+  uint64_t v = ADDR(bu, bs);
+  __CPROVER_assume(v != UINT64_MAX);
+  pred_result r = w_contains_aset_cst(0, &a, &b);
+  __CPROVER_assert(r == (cov_member(&a.cov, v) ? pred_result__yes : pred_result__no), "?contains (address): membership");
+}
+
